@@ -4,14 +4,15 @@
 //! hold exactly what its own stream produces, no page may be shared or leaked (exact page
 //! accounting through the snapshot hooks), and a savepoint that was handed out must be restorable
 //! without leaking. (b) Forced schedules through the `set_dirty` / `ephemeral_savepoint` pause
-//! points: the first table open is parked while the savepoint call runs, and the reverse.
+//! points: the first call that makes the transaction dirty (open_table, open_multimap_table, delete_*,
+//! rename_*) is parked while the savepoint call runs, and the reverse.
 use crate::history::World;
 use crate::out::Out;
 use crate::rng::Rng;
 use crate::table::{err_tag, Cfg};
 use crate::Args;
-use redb::{ReadableDatabase, ReadableTable, ReadableTableMetadata, Savepoint, TableDefinition};
-use std::collections::BTreeMap;
+use redb::{MultimapTableDefinition, ReadableDatabase, ReadableMultimapTable, ReadableTable, ReadableTableMetadata, Savepoint, TableDefinition};
+use std::collections::{BTreeMap, BTreeSet};
 use std::sync::{Arc, Condvar, Mutex};
 use std::time::Duration;
 
@@ -95,9 +96,71 @@ fn read_table(db: &redb::Database, t: usize) -> Result<BTreeMap<u64, Vec<u8>>, S
 }
 
 /// a random multi-threaded transaction on `w`
-fn random_run(w: &mut World, specs: &mut Vec<BTreeMap<u64, Vec<u8>>>, rng: &mut Rng, out: &mut Out) {
-    let nthreads = rng.range(2, 4) as usize;
+#[derive(Clone, Debug)]
+enum MOp {
+    Ins(u64, usize, usize),
+    Rem(u64, usize, usize),
+    RemAll(u64),
+}
+
+type MSpec = BTreeMap<u64, BTreeSet<Vec<u8>>>;
+
+const MM: MultimapTableDefinition<'static, u64, &'static [u8]> = MultimapTableDefinition::new("mtm");
+
+fn read_mm(db: &redb::Database) -> Result<MSpec, String> {
+    let rt = db.begin_read().map_err(|e| format!("{e:?}"))?;
+    match rt.open_multimap_table(MM) {
+        Ok(tb) => {
+            let mut m = MSpec::new();
+            for e in tb.iter().map_err(|e| format!("{e:?}"))? {
+                let (k, vals) = e.map_err(|e| format!("{e:?}"))?;
+                for x in vals {
+                    m.entry(k.value()).or_default().insert(x.map_err(|e| format!("{e:?}"))?.value().to_vec());
+                }
+            }
+            Ok(m)
+        }
+        Err(redb::TableError::TableDoesNotExist(_)) => Ok(MSpec::new()),
+        Err(e) => Err(format!("{e:?}")),
+    }
+}
+
+fn apply_mspec(m: &mut MSpec, ops: &[MOp]) {
+    for op in ops {
+        match op {
+            MOp::Ins(k, len, tag) => {
+                m.entry(*k).or_default().insert(val(*len, *k, *tag));
+            }
+            MOp::Rem(k, len, tag) => {
+                if let Some(set) = m.get_mut(k) {
+                    set.remove(&val(*len, *k, *tag));
+                    if set.is_empty() {
+                        m.remove(k);
+                    }
+                }
+            }
+            MOp::RemAll(k) => {
+                m.remove(k);
+            }
+        }
+    }
+}
+
+fn random_run(w: &mut World, specs: &mut Vec<BTreeMap<u64, Vec<u8>>>, mspec: &mut MSpec, rng: &mut Rng, out: &mut Out) {
     let page = w.cfg.page;
+    // every second transaction has a thread that owns a multimap table
+    let mstream: Vec<MOp> = if rng.chance(1, 2) {
+        (0..rng.range(5, 60))
+            .map(|_| match rng.below(8) {
+                0..=4 => MOp::Ins(rng.below(12), *rng.pick(&[5usize, 60, page / 2]), rng.below(4) as usize),
+                5 | 6 => MOp::Rem(rng.below(12), *rng.pick(&[5usize, 60, page / 2]), rng.below(4) as usize),
+                _ => MOp::RemAll(rng.below(12)),
+            })
+            .collect()
+    } else {
+        vec![]
+    };
+    let nthreads = rng.range(if mstream.is_empty() { 2 } else { 0 }, 4) as usize;
     let streams: Vec<Vec<TOp>> = (0..nthreads).map(|_| gen_stream(rng, page)).collect();
     let commit = rng.chance(5, 6);
     let with_savepoints = rng.chance(1, 2);
@@ -117,6 +180,33 @@ fn random_run(w: &mut World, specs: &mut Vec<BTreeMap<u64, Vec<u8>>>, rng: &mut 
                         obtained.lock().unwrap().push(sp);
                     }
                     std::thread::yield_now();
+                }
+            });
+        }
+        if !mstream.is_empty() {
+            let txn = &txn;
+            let errors = &errors;
+            let mstream = &mstream;
+            s.spawn(move || {
+                let r = (|| -> Result<(), String> {
+                    let mut tb = txn.open_multimap_table(MM).map_err(|e| format!("open: {e:?}"))?;
+                    for op in mstream {
+                        match op {
+                            MOp::Ins(k, len, tag) => {
+                                tb.insert(*k, val(*len, *k, *tag).as_slice()).map_err(|e| format!("{e:?}"))?;
+                            }
+                            MOp::Rem(k, len, tag) => {
+                                tb.remove(*k, val(*len, *k, *tag).as_slice()).map_err(|e| format!("{e:?}"))?;
+                            }
+                            MOp::RemAll(k) => {
+                                tb.remove_all(*k).map_err(|e| format!("{e:?}"))?;
+                            }
+                        }
+                    }
+                    Ok(())
+                })();
+                if let Err(e) = r {
+                    errors.lock().unwrap().push(format!("multimap table: {e}"));
                 }
             });
         }
@@ -164,12 +254,14 @@ fn random_run(w: &mut World, specs: &mut Vec<BTreeMap<u64, Vec<u8>>>, rng: &mut 
         out.oracle_fail(format!("mt-op|{e}"));
     }
     let before: Vec<BTreeMap<u64, Vec<u8>>> = specs.clone();
+    let mbefore = mspec.clone();
     if commit {
         match txn.commit() {
             Ok(()) => {
                 for (t, ops) in streams.iter().enumerate() {
                     apply_spec(&mut specs[t], ops, t);
                 }
+                apply_mspec(mspec, &mstream);
             }
             Err(e) => out.oracle_fail(format!("mt-commit|{e:?}")),
         }
@@ -186,6 +278,11 @@ fn random_run(w: &mut World, specs: &mut Vec<BTreeMap<u64, Vec<u8>>>, rng: &mut 
             Err(e) => out.oracle_fail(format!("mt-read|table {t}: {e}")),
         }
     }
+    match read_mm(w.db.as_ref().unwrap()) {
+        Ok(m) if m == *mspec => {}
+        Ok(m) => out.oracle_fail(format!("mt-contents|the multimap table holds {} keys, its own stream gives {} ({} table threads, commit={commit})", m.len(), mspec.len(), nthreads)),
+        Err(e) => out.oracle_fail(format!("mt-read|multimap table: {e}")),
+    }
     w.check_state(out, "multi-threaded transaction");
     // a savepoint that was handed out captured the state before this transaction: restoring it
     // must give that state back and must not leak
@@ -199,6 +296,10 @@ fn random_run(w: &mut World, specs: &mut Vec<BTreeMap<u64, Vec<u8>>>, rng: &mut 
                 Ok(()) => match txn.commit() {
                     Ok(()) => {
                         *specs = before;
+                        *mspec = mbefore;
+                        if read_mm(db).ok().as_ref() != Some(&*mspec) {
+                            out.oracle_fail("mt-restore|multimap table after restoring a savepoint taken during a multi-threaded transaction".to_string());
+                        }
                         for t in 0..4 {
                             if read_table(db, t).ok().as_ref() != Some(&specs[t]) {
                                 out.oracle_fail(format!("mt-restore|table {t} after restoring a savepoint taken during a multi-threaded transaction"));
@@ -328,7 +429,91 @@ struct Gate {
     cv: Condvar,
 }
 
-fn forced(w: &mut World, first_is_open: bool, point: &'static str, out: &mut Out) {
+/// the calls of a write transaction that make it dirty (each of them ends savepoint eligibility)
+#[derive(Clone, Copy, Debug, PartialEq)]
+enum Dirtier {
+    OpenTable,
+    OpenMultimap,
+    DeleteTable,
+    RenameTable,
+    DeleteMultimap,
+    RenameMultimap,
+}
+
+impl Dirtier {
+    const ALL: [Dirtier; 6] = [Dirtier::OpenTable, Dirtier::OpenMultimap, Dirtier::DeleteTable, Dirtier::RenameTable, Dirtier::DeleteMultimap, Dirtier::RenameMultimap];
+    fn name(self) -> &'static str {
+        match self {
+            Dirtier::OpenTable => "open_table",
+            Dirtier::OpenMultimap => "open_multimap_table",
+            Dirtier::DeleteTable => "delete_table",
+            Dirtier::RenameTable => "rename_table",
+            Dirtier::DeleteMultimap => "delete_multimap_table",
+            Dirtier::RenameMultimap => "rename_multimap_table",
+        }
+    }
+}
+
+const FX: TableDefinition<'static, u64, &'static [u8]> = TableDefinition::new("fx");
+const FY: TableDefinition<'static, u64, &'static [u8]> = TableDefinition::new("fy");
+const FM: MultimapTableDefinition<'static, u64, &'static [u8]> = MultimapTableDefinition::new("fm");
+const FXM: MultimapTableDefinition<'static, u64, &'static [u8]> = MultimapTableDefinition::new("fxm");
+const FYM: MultimapTableDefinition<'static, u64, &'static [u8]> = MultimapTableDefinition::new("fym");
+
+/// everything the forced scenarios can touch, by table name
+fn forced_dump(db: &redb::Database) -> Result<BTreeMap<String, Vec<(u64, Vec<u8>)>>, String> {
+    let rt = db.begin_read().map_err(|e| format!("{e:?}"))?;
+    let mut m = BTreeMap::new();
+    for (name, def) in [("mt0", tdef(0)), ("fx", FX), ("fy", FY)] {
+        match rt.open_table(def) {
+            Ok(tb) => {
+                let mut v = vec![];
+                for e in tb.iter().map_err(|e| format!("{e:?}"))? {
+                    let (k, x) = e.map_err(|e| format!("{e:?}"))?;
+                    v.push((k.value(), x.value().to_vec()));
+                }
+                m.insert(name.to_string(), v);
+            }
+            Err(redb::TableError::TableDoesNotExist(_)) => {}
+            Err(e) => return Err(format!("{name}: {e:?}")),
+        }
+    }
+    for (name, def) in [("fm", FM), ("fxm", FXM), ("fym", FYM)] {
+        match rt.open_multimap_table(def) {
+            Ok(tb) => {
+                let mut v = vec![];
+                for e in tb.iter().map_err(|e| format!("{e:?}"))? {
+                    let (k, vals) = e.map_err(|e| format!("{e:?}"))?;
+                    for x in vals {
+                        v.push((k.value(), x.map_err(|e| format!("{e:?}"))?.value().to_vec()));
+                    }
+                }
+                m.insert(name.to_string(), v);
+            }
+            Err(redb::TableError::TableDoesNotExist(_)) => {}
+            Err(e) => return Err(format!("{name}: {e:?}")),
+        }
+    }
+    Ok(m)
+}
+
+fn forced(w: &mut World, first_is_open: bool, point: &'static str, kind: Dirtier, out: &mut Out) {
+    // a committed base for the calls that need an existing table
+    {
+        let db = w.db.as_ref().unwrap();
+        let txn = db.begin_write().expect("begin_write");
+        {
+            let mut tb = txn.open_table(FX).unwrap();
+            let mut mb = txn.open_multimap_table(FXM).unwrap();
+            for k in 0..6u64 {
+                tb.insert(k, val(60, k, 5).as_slice()).unwrap();
+                mb.insert(k / 2, val(30, k, 6).as_slice()).unwrap();
+            }
+        }
+        txn.commit().expect("commit base");
+    }
+    let before = forced_dump(w.db.as_ref().unwrap());
+
     let gate = Arc::new(Gate { st: Mutex::new((Some(("T1".into(), point.to_string())), false, false)), cv: Condvar::new() });
     let g2 = gate.clone();
     redb::verif::verif_set_pause_hook(Some(Arc::new(move |p| {
@@ -348,14 +533,30 @@ fn forced(w: &mut World, first_is_open: bool, point: &'static str, out: &mut Out
     let db = w.db.as_ref().unwrap();
     let txn = db.begin_write().expect("begin_write");
     let sp_slot: Mutex<Option<Result<Savepoint, String>>> = Mutex::new(None);
-    let second_blocked = std::thread::scope(|s| {
+    let (second_blocked, first_done) = std::thread::scope(|s| {
         let txn = &txn;
         let sp_slot = &sp_slot;
-        let open = move || {
-            let mut tb = txn.open_table(tdef(0)).unwrap();
-            for k in 0..40u64 {
-                tb.insert(k, val(100, k, 0).as_slice()).unwrap();
+        let open = move || match kind {
+            Dirtier::OpenTable => {
+                let mut tb = txn.open_table(tdef(0)).unwrap();
+                for k in 0..40u64 {
+                    tb.insert(k, val(100, k, 0).as_slice()).unwrap();
+                }
             }
+            Dirtier::OpenMultimap => {
+                let mut tb = txn.open_multimap_table(FM).unwrap();
+                for k in 0..40u64 {
+                    tb.insert(k / 3, val(100, k, 0).as_slice()).unwrap();
+                }
+            }
+            Dirtier::DeleteTable => {
+                txn.delete_table(FX).unwrap();
+            }
+            Dirtier::RenameTable => txn.rename_table(FX, FY).unwrap(),
+            Dirtier::DeleteMultimap => {
+                txn.delete_multimap_table(FXM).unwrap();
+            }
+            Dirtier::RenameMultimap => txn.rename_multimap_table(FXM, FYM).unwrap(),
         };
         let save = move || {
             *sp_slot.lock().unwrap() = Some(txn.ephemeral_savepoint().map_err(|e| err_tag(e)));
@@ -371,6 +572,7 @@ fn forced(w: &mut World, first_is_open: bool, point: &'static str, out: &mut Out
                 st = gate.cv.wait_timeout(st, Duration::from_millis(5)).unwrap().0;
             }
         }
+        let first_done = h1.is_finished();
         let h2 = std::thread::Builder::new()
             .name("T2".into())
             .spawn_scoped(s, move || {
@@ -387,12 +589,17 @@ fn forced(w: &mut World, first_is_open: bool, point: &'static str, out: &mut Out
         gate.cv.notify_all();
         h1.join().unwrap();
         h2.join().unwrap();
-        blocked
+        (blocked, first_done)
     });
     redb::verif::verif_set_pause_hook(None);
     let got = sp_slot.lock().unwrap().take();
-    let desc = format!("first={} parked-at={point} second-blocked={}", if first_is_open { "open_table" } else { "ephemeral_savepoint" }, u8::from(second_blocked));
+    let desc = format!("first={} parked-at={point} second-blocked={} dirtier={}", if first_is_open { kind.name() } else { "ephemeral_savepoint" }, u8::from(second_blocked), kind.name());
     out.line(&format!("mt forced {desc} => savepoint={}", match &got { Some(Ok(_)) => "ok".to_string(), Some(Err(e)) => e.clone(), None => "none".into() }));
+    // savepoint eligibility: a call that changed the transaction and returned before the savepoint
+    // call began leaves no room for a savepoint
+    if first_is_open && first_done && matches!(got, Some(Ok(_))) {
+        out.oracle_fail(format!("mt-savepoint-after-dirty|{desc}: ephemeral_savepoint() succeeded on another thread after {}() had returned on this transaction", kind.name()));
+    }
     txn.commit().expect("commit");
     w.check_state(out, &format!("forced {desc}"));
     // C16: whatever the interleaving, a savepoint that exists can be restored without leaking
@@ -402,8 +609,9 @@ fn forced(w: &mut World, first_is_open: bool, point: &'static str, out: &mut Out
         match txn.restore_savepoint(&sp) {
             Ok(()) => {
                 txn.commit().expect("commit restore");
-                if read_table(db, 0).map(|m| m.len()).unwrap_or(1) != 0 {
-                    out.oracle_fail(format!("mt-forced-restore|{desc}: table not empty after restoring the savepoint taken before the first write"));
+                let now = forced_dump(db);
+                if now != before || now.is_err() {
+                    out.oracle_fail(format!("mt-forced-restore|{desc}: restoring the savepoint taken before the first change of the transaction does not give back the tables as they were before it"));
                 }
             }
             Err(e) => {
@@ -424,12 +632,19 @@ fn forced(w: &mut World, first_is_open: bool, point: &'static str, out: &mut Out
                 out.oracle_fail(format!("mt-forced-leak|{desc}: {} pages allocated, {} owned", ps.alloc.len(), ps.data.len() + ps.sys.len() + pending));
             }
         }
-    } else {
-        // clean the table for the next scenario
+    }
+    // clean up for the next scenario
+    {
         let db = w.db.as_ref().unwrap();
         let txn = db.begin_write().unwrap();
-        txn.delete_table(tdef(0)).unwrap();
+        for d in [tdef(0), FX, FY] {
+            txn.delete_table(d).unwrap();
+        }
+        for d in [FM, FXM, FYM] {
+            txn.delete_multimap_table(d).unwrap();
+        }
         txn.commit().unwrap();
+        w.check_state(out, &format!("forced {desc} cleaned"));
     }
     out.count("forced_schedules");
     out.count("evaluations");
@@ -449,12 +664,15 @@ pub fn run(args: &Args) {
             let mut w = World::new(Cfg { page: cfg.page, region: cfg.region, cache: cfg.cache }, "c16");
             out.line(&format!("hist cfg {} {} {}", cfg.page, cfg.region, cfg.cache));
             w.check_state(&mut out, "create");
-            for (open_first, point) in [(true, "set_dirty"), (false, "ephemeral_savepoint.enter"), (false, "ephemeral_savepoint.checked")] {
-                forced(&mut w, open_first, point, &mut out);
+            for kind in Dirtier::ALL {
+                for (open_first, point) in [(true, "set_dirty"), (false, "ephemeral_savepoint.enter"), (false, "ephemeral_savepoint.checked")] {
+                    forced(&mut w, open_first, point, kind, &mut out);
+                }
             }
             let mut specs: Vec<BTreeMap<u64, Vec<u8>>> = vec![BTreeMap::new(); 4];
+            let mut mspec = MSpec::new();
             for _ in 0..(if args.thorough { 40 } else { 12 }) {
-                random_run(&mut w, &mut specs, &mut r, &mut out);
+                random_run(&mut w, &mut specs, &mut mspec, &mut r, &mut out);
             }
             churn_run(&mut w, &mut specs, &mut r, &mut out, if args.thorough { 900 } else { 300 });
             w.readers.clear();
